@@ -365,6 +365,62 @@ class Binder:
             for addr, mode, vec, extra in plan:
                 self.judge(mode, vec, got[addr], extra)
 
+    def neighbours(self, count):
+        """Trichotomy / the numeric order of ExcelValues.tla on doubles which are
+        too close for the pool (TLC integers are 32 bit): x against the next
+        double, against a double 1..4 ulp away and against the result of
+        arithmetic that should be x (0.1+0.2 vs 0.3).  The defined result is the
+        order of the exact rationals the doubles stand for."""
+        v, rnd = self.v, self.rnd
+        pairs = [(0.1 + 0.2, 0.3), (1.1 * 3, 3.3), (1 - 0.9, 0.1), (0.7 + 0.1, 0.8),
+                 (4.35 * 100, 435.0), (1e16 + 2.0, 1e16), (2.0, 2), (0.0, -0.0), (5e-324, 0.0)]
+        texts = [('0.1+0.2', '0.3'), ('1.1*3', '3.3'), ('1-0.9', '0.1'), ('0.7+0.1', '0.8'),
+                 ('4.35*100', '435'), ('3*0.1', '0.3'), ('0.3-0.1', '0.2')]
+        while len(pairs) < count:
+            x = rnd.choice((1, -1)) * rnd.uniform(0.001, 1000.0) * 10 ** rnd.randint(-6, 9)
+            y = x
+            for _ in range(rnd.randint(1, 4)):
+                y = math.nextafter(y, math.inf)
+            pairs.append((x, y))
+        truth = {'=': lambda c: c == 0, '<>': lambda c: c != 0, '<': lambda c: c < 0,
+                 '<=': lambda c: c <= 0, '>': lambda c: c > 0, '>=': lambda c: c >= 0}
+        cells, plan = {}, []
+        r = 0
+        for a, b in pairs + [(b, a) for a, b in pairs]:
+            fa, fb = Fraction(a), Fraction(b)
+            c = (fa > fb) - (fa < fb)
+            r += 1
+            cells[f'A{r}'], cells[f'B{r}'] = a, b
+            for i, op in enumerate(CMPSEQ):
+                want = truth[op](c)
+                got = direct(self.fix, op, a, b)
+                key = ('neighbours', op, repr(a), repr(b))
+                v.case(key + ('direct',))
+                if got is not want:
+                    v.violation(f'[direct] {a!r} {op} {b!r}: defined {want} (order of the exact '
+                                f'values); got {brief(got)}',
+                                dict(mode='neighbours-direct', op=op, a=repr(a), b=repr(b)))
+                col = 'CDEFGH'[i]
+                cells[f'{col}{r}'] = f'=A{r}{op}B{r}'
+                plan.append((f'{col}{r}', op, repr(a), repr(b), want, f'=A{r}{op}B{r}'))
+        for ta, tb in texts:
+            a, b = eval(ta), eval(tb)          # IEEE arithmetic, as the compiled formula does
+            fa, fb = Fraction(a), Fraction(b)
+            c = (fa > fb) - (fa < fb)
+            r += 1
+            for i, op in enumerate(CMPSEQ):
+                col = 'CDEFGH'[i]
+                cells[f'{col}{r}'] = f'=({ta}){op}{tb}'
+                plan.append((f'{col}{r}', op, ta, tb, truth[op](c), f'=({ta}){op}{tb}'))
+        got = evaluate_cells(cells, [p[0] for p in plan])
+        for addr, op, a, b, want, f in plan:
+            v.case(('neighbours', op, a, b, 'cells'))
+            if got[addr] is not want:
+                v.violation(f'[cells] {f} with operands {a} and {b}: defined {want} (order of the '
+                            f'exact values); got {brief(got[addr])}',
+                            dict(mode='neighbours-cells', op=op, a=a, b=b, formula=f))
+        return len(pairs) * 2 + len(texts)
+
     def triples(self, vectors, formula_budget):
         """(a op b) op c for the six comparison operators + transitivity of
         the code's own <= on non-blank scalars"""
@@ -538,6 +594,8 @@ def run(tier, seed):
     v.traces += len(vectors)
     extra = dict(exhaustive=True, operators=ops, pool_size=n, vectors=len(vectors),
                  actions_taken=taken, law_antecedents=ante)
+
+    extra['neighbouring_doubles'] = binder.neighbours(60 if tier == 'quick' else 2000)
 
     if tier == 'thorough':
         # all triples: nested comparisons and transitivity
